@@ -125,6 +125,13 @@ def split_dst(f, d):
                 return base, add(off, o2)
             return None, None
         return base, add(off, o2)
+    if d.get('k') == 'un' and d['op'] == '&' and strip(d['e']).get('k') == 'index':      # &A[i]  ==  A + i
+        ix = strip(d['e'])
+        base, off = split_dst(f, ix['base'])
+        o2 = lin(f, ix['idx'])
+        if base is not None and o2 is not None and byte_pointer(strip(ix['base']).get('t')):
+            return base, add(off, o2)
+        return None, None
     if d.get('k') == 'cond' and 'realptr' in P.K(d):        # bstr_ptr(X): the payload of the bstr X
         vs = [P.K(m['base']) for m in nodes(d, lambda y: y.get('k') == 'member' and y['field'] == 'realptr')]
         return {'k': 'bstrpayload', 'of': vs[0].lstrip('*').strip('()') if vs else '?'}, {}
